@@ -51,8 +51,17 @@ def check_verdict(name: str) -> str:
     from guppylang_internals.error import GuppyError
 
     try:
-        _prog(name).check()
+        try:
+            _prog(name).check()
+        except OSError:
+            # inspect could not read a source file (tree being modified concurrently?): retry once
+            import linecache
+
+            linecache.checkcache()
+            _prog(name).check()
         return "acc"
+    except OSError as e:
+        return f"machinery OSError: {e}"
     except GuppyError as e:
         d = e.error
         title = getattr(d, "rendered_title", None) or getattr(d, "title", "")
